@@ -9,6 +9,7 @@ import (
 	"sort"
 	"strings"
 	"sync"
+	"sync/atomic"
 	"time"
 
 	"golang.org/x/tools/go/packages"
@@ -219,7 +220,15 @@ func (p *Program) exploreOnce(entry *ssa.Function) (*Result, error) {
 				q.stop()
 				return
 			}
-			defer sv.Close()
+			defer func() { sv.Close() }()
+			base, err := p.baseState(ctx, sv)
+			if err != nil {
+				mu.Lock()
+				firstErr = err
+				mu.Unlock()
+				q.stop()
+				return
+			}
 			npaths := 0
 			for {
 				prefix, ok := q.pop()
@@ -241,8 +250,14 @@ func (p *Program) exploreOnce(entry *ssa.Function) (*Result, error) {
 					res.Solver.Add(sv.Stats)
 					mu.Unlock()
 					sv = nsv
+					base, err = p.baseState(ctx, sv)
+					if err != nil {
+						q.done()
+						q.stop()
+						return
+					}
 				}
-				st := p.newState(ctx, sv, prefix, q.push)
+				st := p.newState(base, prefix, q.push)
 				ab := st.runPath(entry)
 				mu.Lock()
 				res.Paths++
@@ -301,19 +316,68 @@ func (p *Program) exploreOnce(entry *ssa.Function) (*Result, error) {
 	return res, nil
 }
 
-func (p *Program) newState(ctx *TermCtx, sv *Solver, prefix []Dec, push func([]Dec)) *State {
-	st := &State{p: p, c: ctx, s: sv, prefix: prefix, newAlt: push,
-		handleOf: map[interface{}]uint64{}, typeHandles: map[string]uint64{}, strCache: map[string]StrV{},
+var genCounter int64
+
+func (p *Program) freshState(ctx *TermCtx, sv *Solver) *State {
+	st := &State{p: p, c: ctx, s: sv,
+		handleOf: map[interface{}]uint64{}, typeHandles: map[string]uint64{}, typeHandlesP: map[types.Type]uint64{}, strCache: map[string]StrV{},
 		globals: map[*ssa.Global]*Obj{}, varSet: map[string]*Term{}, inputs: map[string]uint64{}, symIn: map[string]*Term{},
 		coinRun: map[string]int{}, coinIdx: map[string]int{}, randName: map[uint64]string{}, backEdges: map[*ssa.BasicBlock]int{},
 		reached: map[string]bool{}, fnCount: map[*ssa.Function]int{}, stubCnt: map[string]int{}, userLive: map[int]bool{},
 		ghost: map[string]Value{}, errMsgs: map[uint64]string{}, sharedHandles: map[interface{}]bool{}}
+	st.gen = int(atomic.AddInt64(&genCounter, 1))
 	st.zero8 = ctx.Const(8, 0)
 	st.zero64 = ctx.Const(64, 0)
 	st.preemptLeft = p.Cfg.Preempt
 	st.fs = newFS()
-	sv.ResetToBase()
-	sv.Push()
+	return st
+}
+
+// baseState runs the package initialisers once (per worker and term context); paths start from copies of it.
+func (p *Program) baseState(ctx *TermCtx, sv *Solver) (st *State, err error) {
+	st = p.freshState(ctx, sv)
+	st.newAlt = func([]Dec) { panic("decision during package init") }
+	defer func() {
+		if r := recover(); r != nil {
+			err = fmt.Errorf("package init failed: %v", r)
+		}
+	}()
+	main := &Thread{id: 0, name: "main", hits: map[string]int{}}
+	st.threads = []*Thread{main}
+	st.cur = main
+	for _, pkg := range st.initOrder() {
+		if f := pkg.Func("init"); f != nil && len(f.Blocks) > 0 {
+			st.pushFrame(main, f, nil, nil, nil)
+			st.runUntilReturn(main)
+		}
+	}
+	return st, nil
+}
+
+func copyMap[K comparable, V any](m map[K]V) map[K]V {
+	n := make(map[K]V, len(m)+8)
+	for k, v := range m {
+		n[k] = v
+	}
+	return n
+}
+
+// newState derives a path state from the base state (objects are shared copy-on-write).
+func (p *Program) newState(base *State, prefix []Dec, push func([]Dec)) *State {
+	st := p.freshState(base.c, base.s)
+	st.prefix, st.newAlt = prefix, push
+	st.objs = append(make([]*Obj, 0, len(base.objs)+64), base.objs...)
+	st.handles = append(make([]interface{}, 0, len(base.handles)+32), base.handles...)
+	st.handleOf = copyMap(base.handleOf)
+	st.typeHandles = copyMap(base.typeHandles)
+	st.typeHandlesP = copyMap(base.typeHandlesP)
+	st.strCache = copyMap(base.strCache)
+	st.globals = copyMap(base.globals)
+	st.errMsgs = copyMap(base.errMsgs)
+	st.randName = copyMap(base.randName)
+	st.nRand = base.nRand
+	st.s.ResetToBase()
+	st.s.Push()
 	return st
 }
 
@@ -322,6 +386,19 @@ func (st *State) runPath(entry *ssa.Function) (ab pathAbort) {
 		if r := recover(); r != nil {
 			if pa, ok := r.(pathAbort); ok {
 				ab = pa
+				if pa.kind != abFail {
+					// assertions registered before the path was cut still have to be discharged
+					func() {
+						defer func() {
+							if r2 := recover(); r2 != nil {
+								if pa2, ok := r2.(pathAbort); ok {
+									ab = pa2
+								}
+							}
+						}()
+						st.flushAsserts()
+					}()
+				}
 				return
 			}
 			// engine bug: report as unsupported with location
@@ -334,16 +411,9 @@ func (st *State) runPath(entry *ssa.Function) (ab pathAbort) {
 	main := &Thread{id: 0, name: "main", hits: map[string]int{}}
 	st.threads = []*Thread{main}
 	st.cur = main
-	// package initialisers of the target packages (dependencies first)
-	for _, pkg := range st.initOrder() {
-		if f := pkg.Func("init"); f != nil && len(f.Blocks) > 0 {
-			st.pushFrame(main, f, nil, nil, nil)
-			st.runUntilReturn(main)
-		}
-	}
-	main.status = thReady
 	st.pushFrame(main, entry, nil, nil, nil)
 	st.runLoop()
+	st.flushAsserts()
 	return pathAbort{abDone, ""}
 }
 
